@@ -5,16 +5,10 @@ import os
 
 from .core import VERIF
 
-NOT_APPLICABLE = {
-    'C12': 'pairwise disjointness of a model\'s output depends on which overlapping candidates the regex patterns '
-           'produce at run time; the overlap resolvers (add_to, merge_all_tokens, b_add filter) admit a surviving '
-           'covering-and-crossing configuration, and the only component a static order-type case analysis could '
-           'decide (merge_all_tokens) is not a necessary condition of the model-level property because add_to masks '
-           'its failures. No clause is both visible in the shape of the code and necessary; see DESIGN.md section 3 C12.',
-}
+NOT_APPLICABLE = {}
 # properties whose checker was reviewed, runs clean (or with listed known findings) on the pinned tree and was
 # exercised with breaking / benign edits.  Anything else stays under not_applicable as "pending".
-READY = ['C01', 'C03', 'C04', 'C05', 'C06', 'C07', 'C08', 'C09', 'C10', 'C11', 'C13', 'C14', 'C15', 'C16', 'C17', 'C18', 'C19', 'C20']
+READY = ['C01', 'C03', 'C04', 'C05', 'C06', 'C07', 'C08', 'C09', 'C10', 'C11', 'C12', 'C13', 'C14', 'C15', 'C16', 'C17', 'C18', 'C19', 'C20']
 READY.insert(1, 'C02')
 PENDING = 'checker for this property is not built yet in this session (design in DESIGN.md); not claimed until it is'
 
